@@ -183,10 +183,59 @@ def many_partitions(ctx):
             shutil.rmtree(d, ignore_errors=True)
 
 
+def scores_of_files(ctx):
+    """More input files than any bound a scheduler might put on outstanding work (64 per worker, 100, 128 ...): one file cut into
+    70..150 pieces of 1..4 consecutive records, converted with 0 / 2 worker processes, against the unsplit reference."""
+    from bio2zarr import vcf2zarr
+
+    r = ctx.rnd
+    d = os.path.join(ctx.work, "c03_files")
+    os.makedirs(d)
+    P = lambda x: os.path.join(d, x)  # noqa: E731
+    try:
+        hdr = [f"##contig=<ID=c{j},length=10000000>" for j in range(3)]
+        hdr += ['##INFO=<ID=DP,Number=1,Type=Integer,Description="x">', '##FILTER=<ID=PASS,Description="All filters passed">',
+                '##FORMAT=<ID=GT,Number=1,Type=String,Description="Genotype">']
+        for nfiles, workers in ([(r.choice([70, 90]), 0)] + ([] if ctx.quick else [(150, 2), (135, 1)])):
+            recs, cuts = [], []
+            for j in range(3):
+                pos = r.randint(1, 500)
+                for _ in range(nfiles // 3 + (1 if j < nfiles % 3 else 0)):
+                    piece = []
+                    for _ in range(r.randint(1, 4)):
+                        piece.append(f"c{j}\t{pos}\t.\tA\tT\t.\tPASS\tDP={r.randint(1, 500)}\tGT\t{r.choice(['0/1', '1|1', './.'])}\t{r.choice(['0/0', '1/1'])}")
+                        pos += r.randint(1, 300)
+                    cuts.append(piece)
+                    recs += piece
+            full = vcfgen.make_indexed(d, "full", vcfgen.vcf_text(hdr, recs, samples=["s0", "s1"]), kind="tbi")
+            for x in ("ref.icf", "ref.vcz", "s.icf", "s.vcz"):
+                shutil.rmtree(P(x), ignore_errors=True)
+            vcf2zarr.explode(P("ref.icf"), [full], worker_processes=0)
+            vcf2zarr.encode(P("ref.icf"), P("ref.vcz"), variants_chunk_size=50, worker_processes=0)
+            ref = snapshot(P("ref.vcz"))
+            files = [vcfgen.make_indexed(d, f"f{k:03d}", vcfgen.vcf_text(hdr, piece, samples=["s0", "s1"]), kind="tbi") for k, piece in enumerate(cuts)]
+            r.shuffle(files)
+            doc = dict(kind="scores-of-split-files", files=len(files), records=len(recs), worker_processes=workers)
+            ctx.case(doc, nontrivial=True)
+            ctx.count("config:scores-of-split-files")
+            try:
+                vcf2zarr.explode(P("s.icf"), files, worker_processes=workers)
+                vcf2zarr.encode(P("s.icf"), P("s.vcz"), variants_chunk_size=50, worker_processes=0)
+                bad = diff_snap(ref, snapshot(P("s.vcz")), dict(recs=[]), ignore_attrs=True)
+                if bad:
+                    ctx.fail(doc, dict(arrays=bad[:5]), f"store depends on the configuration ({len(files)} split files, {workers} worker processes): {bad[:4]} differ from the unsplit reference")
+            except Exception as e:  # noqa: BLE001
+                ctx.fail(doc, dict(error=f"{type(e).__name__}: {e}"[:200]), "conversion of the split files failed")
+            ctx.traces_validated += 1
+    finally:
+        shutil.rmtree(d, ignore_errors=True)
+
+
 def run(ctx):
     from bio2zarr import vcf2zarr
 
     many_partitions(ctx)
+    scores_of_files(ctx)
     r = ctx.rnd
     for i in range(ctx.n(10, 300)):
         seed = ctx.seed * 7 + 40000 + i
